@@ -37,13 +37,16 @@ os.makedirs(dst, exist_ok=True)
 shutil.copy(f'{wt}/SEED/patch.diff', f'{dst}/patch.diff')
 if os.path.isdir(f'{wt}/SEED/demo'):
     shutil.copytree(f'{wt}/SEED/demo', f'{dst}/demo', dirs_exist_ok=True)
+if os.path.exists(f'{wt}/SEED/patch.rebased.diff'):
+    # the sub-agent's worktree predates a later fix: commit in /repo that touches the same lines; the same change re-expressed on the current tree
+    shutil.copy(f'{wt}/SEED/patch.rebased.diff', f'{dst}/patch.rebased.diff')
 if os.path.exists(f'{wt}/SEED/README.md'):
     shutil.copy(f'{wt}/SEED/README.md', f'{dst}/README.agent.md')
 # our checks against it
 assert not sh('git -C /repo status --porcelain').stdout.strip(), '/repo not clean'
 results = {}
 try:
-    a = sh(f'git -C /repo apply {dst}/patch.diff')
+    a = sh(f'git -C /repo apply {dst}/patch.rebased.diff') if os.path.exists(f'{dst}/patch.rebased.diff') else sh(f'git -C /repo apply {dst}/patch.diff')
     if a.returncode != 0:
         # /repo has moved on since the worktree was made (hook / fix commits): fall back to a three-way merge of the same change
         a = sh(f'git -C /repo apply --3way {dst}/patch.diff')
